@@ -77,7 +77,7 @@ def asarray(a, dtype=None, **k):
         o = SArr((), dtype or 'f8', fill=None)
         real_np.ndarray.__setitem__(o, (), a)
         return o
-    if isinstance(a, (list, tuple)) and any(isinstance(x, (Sym, Cplx, real_np.ndarray, list, tuple)) for x in a):
+    if isinstance(a, (list, tuple)) and builtins.any(isinstance(x, (Sym, Cplx, real_np.ndarray, list, tuple)) for x in a):
         return array(a, dtype)
     r = real_np.asarray(a)
     if r.dtype == object:
@@ -95,7 +95,7 @@ def array(a, dtype=None, copy=True, **k):
         r = a.copy()
         return r.astype(dtype) if dtype is not None else r
     if isinstance(a, (list, tuple)):
-        if len(a) and any(isinstance(x, real_np.ndarray) for x in a):
+        if len(a) and builtins.any(isinstance(x, real_np.ndarray) for x in a):
             parts = [asarray(x) for x in a]
             o = real_np.empty((len(parts),) + parts[0].shape, dtype=object)
             for n, pz in enumerate(parts):
@@ -103,11 +103,11 @@ def array(a, dtype=None, copy=True, **k):
             r = as_sarr(o, dtype or parts[0].dtype)
             root_info(r, ld=r.dtype)
             return r
-        if any(isinstance(x, (Sym, Cplx)) for x in _flatten(a)):
+        if builtins.any(isinstance(x, (Sym, Cplx)) for x in _flatten(a)):
             o = real_np.empty(_list_shape(a), dtype=object)
             _fill_from_list(o, a)
             kinds = {x.kind for x in _flatten(a) if isinstance(x, Sym)}
-            dt = dtype or ('f8' if 'r' in kinds or any(isinstance(x, float) for x in _flatten(a)) else 'i8')
+            dt = dtype or ('f8' if 'r' in kinds or builtins.any(isinstance(x, float) for x in _flatten(a)) else 'i8')
             r = as_sarr(o, dt)
             root_info(r, ld=r.dtype)
             return r
@@ -280,12 +280,32 @@ def diff(a):
     return a[1:] - a[:-1]
 
 
+def _truth(x):
+    if isinstance(x, Sym):
+        return x if x.kind == 'b' else (x != 0)
+    return builtins.bool(x)
+
+
+def _reduce_axis(a, axis, conj):
+    """any/all along one axis -> bool SArr"""
+    raw = real_np.moveaxis(real_np.ndarray.view(a, real_np.ndarray), axis, -1)
+    o = SArr(raw.shape[:-1], T('?'), fill=None)
+    for idx in real_np.ndindex(*raw.shape[:-1]):
+        vals = [_truth(x) for x in raw[idx]]
+        if not builtins.any(isinstance(x, Sym) for x in vals):
+            r = builtins.all(vals) if conj else builtins.any(vals)
+        else:
+            r = Sym(z3.simplify((z3.And if conj else z3.Or)([core._b(lift(x)) for x in vals])))
+        real_np.ndarray.__setitem__(o, idx, r)
+    return o
+
+
 def all(a, axis=None):
     a = asarray(a)
     if axis is not None:
-        raise ModelGap('all(axis)')
+        return _reduce_axis(a, axis, True)
     vals = [x for x in real_np.ndarray.view(a, real_np.ndarray).flat]
-    if not any(isinstance(x, Sym) for x in vals):
+    if not builtins.any(isinstance(x, Sym) for x in vals):
         return builtins.all(vals)
     return Sym(z3.simplify(z3.And([core._b(lift(x)) for x in vals])))
 
@@ -293,7 +313,7 @@ def all(a, axis=None):
 def any(a, axis=None):
     a = asarray(a)
     if axis is not None:
-        raise ModelGap('any(axis)')
+        return _reduce_axis(a, axis, False)
     vals = [x for x in real_np.ndarray.view(a, real_np.ndarray).flat]
     if not builtins.any(isinstance(x, Sym) for x in vals):
         return builtins.any(vals)
@@ -388,7 +408,20 @@ def where(c, a=None, b=None):
         c = asarray(c)
         cc = real_np.array([builtins.bool(x) for x in real_np.ndarray.view(c, real_np.ndarray).flat]).reshape(c.shape)
         return real_np.where(cc)
-    raise ModelGap('three-argument where')
+    c, a, b = asarray(c), asarray(a), asarray(b)
+    dt = real_np.result_type(as_npdtype(a.dtype), as_npdtype(b.dtype))
+    rc, ra, rb = real_np.broadcast_arrays(*[real_np.ndarray.view(x, real_np.ndarray) for x in (c, a, b)])
+    o = SArr(rc.shape, T(dt), fill=None)
+    for idx in real_np.ndindex(*rc.shape):
+        t = _truth(rc[idx])
+        v = core.ite(t, ra[idx], rb[idx]) if isinstance(t, Sym) else (ra[idx] if t else rb[idx])
+        real_np.ndarray.__setitem__(o, idx, cast_value(v, dt))
+    return o
+
+
+def atleast_2d(a):
+    a = asarray(a)
+    return a.reshape(1, 1) if a.ndim == 0 else a.reshape(1, -1) if a.ndim == 1 else a
 
 
 class _Namespace:
@@ -413,7 +446,7 @@ def make_np():
                'ascontiguousarray', 'arange', 'linspace', 'cumsum', 'sum', 'sqrt', 'floor', 'ceil', 'rint', 'round_', 'absolute',
                'conj', 'conjugate', 'real', 'imag', 'sin', 'cos', 'sinc', 'exp', 'log10', 'log', 'isnan', 'isfinite', 'minimum',
                'maximum', 'isclose', 'concatenate', 'diff', 'all', 'any', 'argsort', 'searchsorted', 'isscalar', 'shape',
-               'dtype', 'issubdtype', 'may_share_memory', 'atleast_1d', 'where', 'multiply', 'add', 'subtract', 'divide', 'true_divide']:
+               'dtype', 'issubdtype', 'may_share_memory', 'atleast_1d', 'atleast_2d', 'where', 'multiply', 'add', 'subtract', 'divide', 'true_divide']:
         d[nm] = g[nm]
     d['abs'] = absolute
     d['round'] = rint
